@@ -183,7 +183,7 @@ def onTrack (st : MixState) (r : MxRenderer) (id : Nat) (f : MxTrk → MxTrk) (g
 
 def showSamples (l : List Float) : String := String.intercalate " " (l.map show32)
 
-def mixStep (st : MixState) (tok : List String) : Option (MixState × String) :=
+def mixStep1 (st : MixState) (tok : List String) : Option (MixState × String) :=
   match st.r, tok with
   | _, ["init", ibs, sr, vol, fx] => do
       let ibs ← nat? ibs; let sr ← nat? sr; let vol ← f32? vol
@@ -293,5 +293,32 @@ def mixStep (st : MixState) (tok : List String) : Option (MixState × String) :=
           ([s!"subs={m.hNumSubTracks}", s!"sends={m.hNumSendTracks}",
             s!"main={m.main.sounds.length + m.main.pendingSounds.length}"] ++ parts))
   | _, _ => none
+
+/-- split a token list at the `|` tokens -/
+def splitBar : List String → List (List String)
+  | [] => [[]]
+  | t :: ts =>
+    let r := splitBar ts
+    if t == "|" then [] :: r
+    else match r with
+      | h :: rest => (t :: h) :: rest
+      | [] => [[t]]
+
+/-- `seq <op> | <op> | …` runs the ops in order (outputs joined by ` || `); a fault ends the sequence -/
+def mixStep (st : MixState) (tok : List String) : Option (MixState × String) :=
+  match tok with
+  | "seq" :: rest =>
+    let ops := (splitBar rest).filter (fun o => !o.isEmpty)
+    let r := ops.foldl (fun (acc : Option (MixState × List String × Bool)) o =>
+      match acc with
+      | none => none
+      | some (s, outs, dead) =>
+        if dead then some (s, outs, dead)
+        else match mixStep1 s o with
+          | some (s', out) => some (s', outs ++ [out], out.startsWith "fault")
+          | none => none) (some (st, [], false))
+    r.map (fun (s, outs, dead) =>
+      (s, if dead then (outs.getLast?.getD "fault panic") else String.intercalate " || " outs))
+  | _ => mixStep1 st tok
 
 end K.Exec
